@@ -39,7 +39,7 @@ REQUIRED = {"all": ["move:full_shuffle", "move:swapRes", "move:swapRandChargeRes
                     "move:permute_cluster_charges", "move:get_shuffled_sequence", "move:get_permutant", "chains",
                     "hostile_tapes", "parent_dmax_cached", "parent_dmax_not_cached", "frozen_nonempty", "frozen_only_zero",
                     "frozen_all_charged", "uncharged_parents", "returned_parent_itself", "carried_dmax_checked",
-                    "ancestors_checked", "frozen_as_numpy_array"]}
+                    "ancestors_checked", "frozen_as_numpy_array", "frozen_list_with_repeats"]}
 NCASE = {"quick": 700, "thorough": 8000}
 DRAW_BUDGET = 20000
 BACKEND_MOVES = ["full_shuffle", "swapRes", "swapRandChargeRes", "permute_block_swap", "permute_cluster_charges"]
@@ -164,9 +164,12 @@ def judge(case, rep, S):
             try:
                 if style == "shuffle":
                     psnap = snap(parent)
-                    fz = rng.choice([set(frozen), list(frozen), tuple(frozen), S["np"].array(frozen, dtype=int)])
+                    fz = rng.choice([set(frozen), list(frozen), tuple(frozen), S["np"].array(frozen, dtype=int),
+                                     list(frozen) + list(frozen)[len(frozen) // 2:]])
                     if not isinstance(fz, (set, list, tuple)):
                         rep.cnt("frozen_as_numpy_array")
+                    elif len(fz) > len(frozen):
+                        rep.cnt("frozen_list_with_repeats")
                     res = api.get_shuffled_sequence(fz) if frozen or rng.random() < 0.5 else api.get_shuffled_sequence()
                     move = "get_shuffled_sequence"
                     fr = frozen
@@ -220,7 +223,8 @@ def judge(case, rep, S):
                     fr = frozen
                     ctx = "(frozen %r, step %d of a chain from %s)" % (frozen, step, seq)
                 else:
-                    fz = rng.choice([set(frozen), list(frozen), tuple(frozen), S["np"].array(frozen, dtype=int)]) if move == "full_shuffle" else set(frozen)
+                    fz = rng.choice([set(frozen), list(frozen), tuple(frozen), S["np"].array(frozen, dtype=int),
+                                     list(frozen) + list(frozen)[len(frozen) // 2:]]) if move == "full_shuffle" else set(frozen)
                     child = getattr(parent, move)(fz) if frozen or rng.random() < 0.5 else getattr(parent, move)()
                     fr = frozen
                     ctx = "(frozen %r, step %d of a chain from %s)" % (frozen, step, seq)
